@@ -470,6 +470,9 @@ func (a *allowerContext) createEventAllowed(event PDU) error {
 	if err != nil {
 		return err
 	}
+	if sender == nil {
+		return errorf("userID not found for sender %q in room %q", event.SenderID(), a.roomID)
+	}
 	verImpl, err := GetRoomVersion(event.Version())
 	if err != nil {
 		return nil
@@ -502,6 +505,9 @@ func (a *allowerContext) aliasEventAllowed(event PDU) error {
 	sender, err := a.userIDQuerier(a.roomID, event.SenderID())
 	if err != nil {
 		return err
+	}
+	if sender == nil {
+		return errorf("userID not found for sender %q in room %q", event.SenderID(), a.roomID)
 	}
 
 	if event.RoomID().String() != a.create.roomID {
@@ -886,6 +892,9 @@ func (a *allowerContext) redactEventAllowed(event PDU) error {
 	sender, err := a.userIDQuerier(a.roomID, event.SenderID())
 	if err != nil {
 		return err
+	}
+	if sender == nil {
+		return errorf("userID not found for sender %q in room %q", event.SenderID(), a.roomID)
 	}
 	if string(sender.Domain()) == redactDomain {
 		return nil
